@@ -22,6 +22,7 @@ type ReplayTmpl struct {
 	Test  string `json:"test"`  // template file under /verif/replay_tmpl/
 	Run   string `json:"run"`   // -run pattern
 	Props []string `json:"props,omitempty"` // when set: only for checks of these properties
+	FailMeansReproduced bool `json:"fail_means_reproduced,omitempty"` // the test is an oracle that passes on the unchanged tree: any test failure is a reproduction
 }
 
 func loadReplayIndex(verif string) []ReplayTmpl {
@@ -72,7 +73,7 @@ func runReplay(t ReplayTmpl, o *Oblig, repo, verif string) *ReplayResult {
 		"VERIF_MODEL="+modelPath, "VERIF_OBLIGATION="+o.Name)
 	out, err := cmd.CombinedOutput()
 	rr := &ReplayResult{Test: t.Test, Cmd: "cd " + repo + " && go " + strings.Join(args, " "), Output: tail(string(out), 4000)}
-	rr.Reproduced = err != nil && strings.Contains(string(out), "REPRODUCED")
+	rr.Reproduced = err != nil && (strings.Contains(string(out), "REPRODUCED") || (t.FailMeansReproduced && strings.Contains(string(out), "--- FAIL")))
 	return rr
 }
 
